@@ -46,11 +46,19 @@ pub struct Case {
     /// settings from its layered configuration; backend calls are then not observable
     #[serde(default)]
     pub configured: Option<crate::layers::LayerPlan>,
+    /// after the history: this many connections announcing one fresh source arrive in the same instant (exactly
+    /// `limit` of them are served)
+    #[serde(default)]
+    pub burst: u8,
+    /// after the history (configured instances): 2.2 s later an exhausted source tries again - the window is 1000 s,
+    /// not 1000 ms
+    #[serde(default)]
+    pub retry_after_pause: bool,
 }
 
 pub struct C15;
 
-const SOURCES: [&str; 6] = ["203.0.113.5:40001", "203.0.113.5:40999", "203.0.113.6:40002", "[2001:db8::5]:40003", "[2001:db8::6]:1", "198.51.100.7:65535"];
+const SOURCES: [&str; 7] = ["203.0.113.5:40001", "203.0.113.5:40999", "203.0.113.6:40002", "[2001:db8::5]:40003", "[2001:db8::6]:1", "198.51.100.7:65535", "[::ffff:203.0.113.9]:40004"];
 const T: Duration = Duration::from_secs(4);
 
 fn malformed(kind: u8) -> Vec<u8> {
@@ -239,6 +247,63 @@ fn decide(case: &Case, info: &mut CaseInfo) -> Verdict {
         }
         drop(c);
     }
+    // ---- a burst of simultaneous connections from one fresh address: the limiter counts every one of them
+    if matches!(verdict, Verdict::Pass) && case.burst > 0 {
+        info.class("simultaneous_burst_from_one_address");
+        let n = usize::from(case.burst);
+        let src: SocketAddr = "198.18.0.77:5000".parse().unwrap();
+        let proxy_on = case.proxy.is_some_and(|(v1, v2)| v1 || v2);
+        // with PROXY off every peer is 127.0.0.x and may already have used its budget: burst from a peer address not used before
+        let peer_ip = if proxy_on { "127.0.0.1" } else { "127.0.0.9" };
+        let barrier = std::sync::Barrier::new(n);
+        let served: usize = std::thread::scope(|s| {
+            let hs: Vec<_> = (0..n)
+                .map(|_| {
+                    let barrier = &barrier;
+                    s.spawn(move || {
+                        barrier.wait();
+                        let Ok(stream) = net::connect_from(peer_ip, port) else { return false };
+                        let Ok(mut c) = NetClient::from_stream(stream) else { return false };
+                        if let Some((v1, _)) = case.proxy {
+                            if proxy_on {
+                                let _ = c.write_raw(&if v1 { net::proxy_v1(src, dst) } else { net::proxy_v2(src, dst) });
+                            }
+                        }
+                        c.status_exchange("burst.example.org", Duration::from_secs(3)).is_ok()
+                    })
+                })
+                .collect();
+            hs.into_iter().map(|h| usize::from(h.join().unwrap_or(false))).sum()
+        });
+        let expect = n.min(usize::from(case.limit));
+        if case.proxy != Some((false, false)) && served != expect {
+            verdict = Verdict::Fail { sig: if served > expect { "more-than-limit-served-in-a-burst" } else { "admitted-connection-not-served" }.into(), msg: format!("{n} simultaneous connections from one fresh address, limit {}: {served} were served, expected {expect} (proxy {:?}{how})", case.limit, case.proxy) };
+        }
+    }
+    // ---- the configured window is 1000 seconds: an exhausted address is still refused a little later
+    if matches!(verdict, Verdict::Pass) && case.retry_after_pause && child.is_some() {
+        if let Some((ip, _)) = admitted.iter().find(|(_, n)| **n >= usize::from(case.limit)) {
+            info.class("exhausted_address_retries_after_2s");
+            std::thread::sleep(Duration::from_millis(2200));
+            let src = SocketAddr::new(*ip, 41000);
+            let proxy_on = case.proxy.is_some_and(|(v1, v2)| v1 || v2);
+            let via_peer = !proxy_on;
+            let r = (|| {
+                let stream = net::connect_from(&if via_peer { ip.to_string() } else { "127.0.0.1".to_string() }, port).ok()?;
+                let mut c = NetClient::from_stream(stream).ok()?;
+                if let (true, Some((v1, _))) = (proxy_on, case.proxy) {
+                    c.write_raw(&if v1 { net::proxy_v1(src, dst) } else { net::proxy_v2(src, dst) }).ok()?;
+                }
+                let _ = c.status_exchange("retry.example.org", Duration::from_secs(2));
+                Some(c.received)
+            })();
+            if let Some(received) = r {
+                if received > 0 {
+                    verdict = Verdict::Fail { sig: "served-although-limiter-refuses".into(), msg: format!("address {ip} used its whole budget (limit {}, window 1000 s) and was served again 2.2 s later ({received} bytes){how}", case.limit) };
+                }
+            }
+        }
+    }
     if let Some(run) = bare {
         run.shutdown();
     }
@@ -271,9 +336,9 @@ impl Check for C15 {
             .prop_flat_map(|proxy| {
                 let header = if proxy.is_some() {
                     prop_oneof![
-                        5 => (0u8..6).prop_map(Header::V1),
-                        5 => (0u8..6).prop_map(Header::V2),
-                        2 => (0u8..6).prop_map(Header::V2Dgram),
+                        5 => (0u8..7).prop_map(Header::V1),
+                        5 => (0u8..7).prop_map(Header::V2),
+                        2 => (0u8..7).prop_map(Header::V2Dgram),
                         1 => Just(Header::V2Local),
                         1 => Just(Header::V1Unknown),
                         1 => Just(Header::None),
@@ -286,7 +351,11 @@ impl Check for C15 {
                 let conn = (0u8..3, header, prop::bool::weighted(0.2)).prop_map(|(peer, header, full_login)| Conn { peer, header, full_login });
                 (Just(proxy), 1u8..=4, proptest::collection::vec(conn, 5..30), proptest::option::weighted(0.3, crate::layers::plan_strategy()))
             })
-            .prop_map(|(proxy, limit, conns, configured)| Case { proxy, limit, conns, configured })
+            .prop_map(|(proxy, limit, conns, configured)| {
+                let burst = if conns.len() % 5 == 0 { 16 + (conns.len() as u8 % 16) } else { 0 };
+                let retry_after_pause = configured.is_some() && conns.len() % 4 == 1;
+                Case { proxy, limit, conns, configured, burst, retry_after_pause }
+            })
             .boxed()
     }
     fn max_shrink_iters(&self) -> u32 {
